@@ -26,8 +26,8 @@ import (
 //       rune sample and category-oracle rows; Lean's memAlg / charInSlow / charIn(prepare) must equal
 //       Go's CharIn; the parser's effect on the item list (Lean `build`) must equal the dumped
 //       structure (ranges after canonicalize, categories, negate, anything), level by level; under
-//       IgnoreCase Lean's addCaseEquivalences of the case-sensitive parse must equal the
-//       case-insensitive parse (classes on which addLowercase is the identity).
+//       IgnoreCase Lean's buildItems → addLowercase → Copy → addCaseEquivalences must equal the
+//       case-insensitive parse (classes whose ranges cover at most 3000 runes).
 
 type c16Item struct {
 	K    string `json:"k"` // "r" range (Lo..Hi), "sh" shorthand d/w/s, "p" \p{Name}, "px" [:name:]
@@ -689,6 +689,11 @@ func c16ItemsSexp(c *c16Class, opts int, ids map[string]int, ends *[]rune) strin
 		case "sh":
 			parts = append(parts, short(it.Name, it.Neg, ecma || re2, re2))
 		case "p":
+			if opts&c16I != 0 && (it.Name == "Ll" || it.Name == "Lu" || it.Name == "Lt") {
+				// addCategory under IgnoreCase: all three case categories, then the named one
+				n := b2int(it.Neg)
+				parts = append(parts, fmt.Sprintf("(cs %d %d %d %d %d %d)", id("Ll"), n, id("Lu"), n, id("Lt"), n))
+			}
 			parts = append(parts, fmt.Sprintf("(cs %d %d)", id(it.Name), b2int(it.Neg)))
 		case "px":
 			switch it.Name {
@@ -700,12 +705,21 @@ func c16ItemsSexp(c *c16Class, opts int, ids map[string]int, ends *[]rune) strin
 				}
 			default:
 				rs := c16PosixRanges[it.Name]
-				for _, r := range rs {
-					*ends = append(*ends, r[0], r[1])
-				}
 				if it.Neg {
+					// the ranges that end up in the class are the complement
+					hi := rune(0)
+					for _, r := range rs {
+						if hi < r[0] {
+							*ends = append(*ends, hi, r[0]-1)
+						}
+						hi = r[1] + 1
+					}
+					*ends = append(*ends, hi, c16Max)
 					parts = append(parts, c16RangesSexp("nrs", rs))
 				} else {
+					for _, r := range rs {
+						*ends = append(*ends, r[0], r[1])
+					}
 					parts = append(parts, c16RangesSexp("rs", rs))
 				}
 			}
@@ -1032,10 +1046,11 @@ func c16Check(c *core.Ctx, cases []c16Case) []core.Outcome {
 				lines = append(lines, core.S("c16", "build", core.SBool(lvl.Neg), core.SBool(lvl.Sub != nil), items, rows))
 				pend = append(pend, c16Pending{i, "build", want, lvl.String()})
 			}
-		} else if c16LowerSafe(&cs.Class) {
+		} else {
 			// caseq: the item lists of every level go to Lean, which builds them as scanCharSet does
-			// under IgnoreCase (addLowercase is the identity on these classes), copies the class and
-			// adds the case equivalences; the result must be the IgnoreCase parse
+			// under IgnoreCase (items, addLowercase with lcTable regenerated from the source and
+			// unicode.ToLower rows for single characters), copies the class and adds the case
+			// equivalences; the result must be the IgnoreCase parse
 			d1, err1 := c16ParseDump(cls, cs.Opts)
 			if err1 != nil {
 				fail("correspondence-break", "caseq:parse", "syntax.Parse of the lone class failed", "parses", cls)
@@ -1058,26 +1073,42 @@ func c16Check(c *core.Ctx, cases []c16Case) []core.Outcome {
 				ob.WriteString("(orbit")
 				asked := append([]rune{}, e2...)
 				seen := map[rune]bool{}
+				var lb strings.Builder
+				lb.WriteString("(lower")
+				orbitRow := func(ch rune) {
+					if seen[ch] || ch < 0 || ch > c16Max {
+						return
+					}
+					seen[ch] = true
+					if orb := c16FoldOrbit(ch); len(orb) > 1 {
+						fmt.Fprintf(&ob, " (%d", ch)
+						for _, e := range orb[1:] {
+							fmt.Fprintf(&ob, " %d", e)
+							asked = append(asked, e)
+						}
+						ob.WriteByte(')')
+					}
+				}
+				for ch := rune(0); ch < 0x80; ch++ {
+					orbitRow(ch)
+				}
 				for k := 0; k+1 < len(e2); k += 2 {
 					for ch := e2[k]; ch <= e2[k+1]; ch++ {
-						if seen[ch] {
-							continue
-						}
-						seen[ch] = true
-						if orb := c16FoldOrbit(ch); len(orb) > 1 {
-							fmt.Fprintf(&ob, " (%d", ch)
-							for _, e := range orb[1:] {
-								fmt.Fprintf(&ob, " %d", e)
-								asked = append(asked, e)
+						orbitRow(ch)
+						if l := unicode.ToLower(ch); l != ch {
+							orbitRow(l)
+							asked = append(asked, l)
+							if e2[k] == e2[k+1] {
+								fmt.Fprintf(&lb, " (%d %d)", ch, l)
 							}
-							ob.WriteByte(')')
 						}
 					}
 				}
 				ob.WriteByte(')')
+				lb.WriteByte(')')
 				rows, okc := c16OracleRows(ids, c16Uniq(c16Spread(asked, 2), func(rune) bool { return true }))
 				if okc {
-					lines = append(lines, core.S("c16", "caseq", "(levels "+strings.Join(lv, " ")+")", ob.String(), rows))
+					lines = append(lines, core.S("c16", "caseq", "(levels "+strings.Join(lv, " ")+")", ob.String(), lb.String(), rows))
 					pend = append(pend, c16Pending{i, "caseq", want, cls})
 				}
 			}
@@ -1101,7 +1132,7 @@ func c16Check(c *core.Ctx, cases []c16Case) []core.Outcome {
 			what := map[string]string{
 				"mem":   "Lean memAlg / charInSlow / charIn∘prepare on the dumped CharSet disagree with Go's CharIn on the sample",
 				"build": "Lean `build` of the item list differs from the CharSet the parser produced",
-				"caseq": "Lean addCaseEquivalences of the case-sensitive parse differs from the IgnoreCase parse",
+				"caseq": "Lean buildItems/addLowercase/Copy/addCaseEquivalences differs from the IgnoreCase parse",
 			}[p.what]
 			outs[p.caseIdx].Fail = &core.Failure{Kind: "correspondence-break", Key: "model:" + p.what + ":" + c16OptName(cases[p.caseIdx].Opts), Summary: what + " — " + p.info, Expected: c16Clip(ans[k]), Got: c16Clip(p.want)}
 		}
@@ -1114,46 +1145,6 @@ func c16Clip(s string) string {
 		return s[:1500] + "…"
 	}
 	return s
-}
-
-// c16LowerSafe: addLowercase is the identity on the class (no code-point item touches a rune that
-// has a different lowercase; no Ll/Lu/Lt category, which IgnoreCase triples)
-func c16LowerSafe(c *c16Class) bool {
-	for ; c != nil; c = c.Sub {
-		for _, it := range c.Items {
-			switch it.K {
-			case "r":
-				if it.Hi >= 0x80 {
-					return false
-				}
-				for ch := it.Lo; ch <= it.Hi; ch++ {
-					if unicode.ToLower(ch) != ch {
-						return false
-					}
-				}
-			case "p":
-				if it.Name == "Lu" || it.Name == "Ll" || it.Name == "Lt" {
-					return false
-				}
-			case "sh":
-				if it.Neg { // complements reach non-ASCII cased runes
-					return false
-				}
-				if it.Name == "w" {
-					return false
-				}
-			case "px":
-				if it.Neg {
-					return false
-				}
-				switch it.Name {
-				case "alnum", "alpha", "ascii", "graph", "print", "upper", "word", "xdigit":
-					return false
-				}
-			}
-		}
-	}
-	return true
 }
 
 func c16Gen(c *core.Ctx) func(rng *rand.Rand, i int) c16Case {
@@ -1204,7 +1195,7 @@ func init() {
 		}
 		core.RunLeg(c, core.Leg[c16Case]{
 			Name: "K", Kind: "correspondence+oracle",
-			Rule: "random class expressions: 1-4 (1 in 6: 5-12) items among single runes, ranges, \\d\\w\\s\\D\\W\\S, \\p{..}/\\P{..} (44 names; not under ECMAScript), POSIX names (RE2 only), negated 1 in 4, nested subtraction 1 in 3 per level (depth ≤ 3), 1 in 12 an 'everything but a gap' pair of ranges; options drawn from {default×2, IgnoreCase, ECMAScript, ECMAScript+IgnoreCase, RE2, RE2+IgnoreCase} (IgnoreCase: ASCII range endpoints; rune domain = ASCII ∪ plain upper/lower pairs ∪ caseless runes), ASCII bitmap disabled 1 in 3. Domain per class: U+0000-024F, every endpoint ±1 (AST and compiled set), 130 special runes, 400 random; every 400th (thorough: 150th) class all 1 114 112 code points. Non-trivial = more than one item, negated, or has a subtraction; distinct by (options, bitmap, class text). Oracle: CharIn, charInSlow, MatchRunes of ^[…]$, x*[…], ^[…]+$ (doubled rune) per rune, and bulk ^[…]+$ over all members / unanchored […] over all non-members, against set algebra recomputed from the AST (package unicode tables, stdlib regexp for POSIX names and RE2 shorthands; case equivalence = SimpleFold orbit for code-point items). Correspondence: Lean memAlg/charInSlow/charIn∘prepare on the dumped CharSet vs Go CharIn (sample: ASCII, endpoints ±2, special, 60 random); Lean build(items) vs parsed structure per nesting level (no IgnoreCase); Lean addCaseEquivalences(case-sensitive parse) vs IgnoreCase parse (classes where addLowercase is the identity)",
+			Rule: "random class expressions: 1-4 (1 in 6: 5-12) items among single runes, ranges, \\d\\w\\s\\D\\W\\S, \\p{..}/\\P{..} (44 names; not under ECMAScript), POSIX names (RE2 only), negated 1 in 4, nested subtraction 1 in 3 per level (depth ≤ 3), 1 in 12 an 'everything but a gap' pair of ranges; options drawn from {default×2, IgnoreCase, ECMAScript, ECMAScript+IgnoreCase, RE2, RE2+IgnoreCase} (IgnoreCase: ASCII range endpoints; rune domain = ASCII ∪ plain upper/lower pairs ∪ caseless runes), ASCII bitmap disabled 1 in 3. Domain per class: U+0000-024F, every endpoint ±1 (AST and compiled set), 130 special runes, 400 random; every 400th (thorough: 150th) class all 1 114 112 code points. Non-trivial = more than one item, negated, or has a subtraction; distinct by (options, bitmap, class text). Oracle: CharIn, charInSlow, MatchRunes of ^[…]$, x*[…], ^[…]+$ (doubled rune) per rune, and bulk ^[…]+$ over all members / unanchored […] over all non-members, against set algebra recomputed from the AST (package unicode tables, stdlib regexp for POSIX names and RE2 shorthands; case equivalence = SimpleFold orbit for code-point items). Correspondence: Lean memAlg/charInSlow/charIn∘prepare on the dumped CharSet vs Go CharIn (sample: ASCII, endpoints ±2, special, 60 random); Lean build(items) vs parsed structure per nesting level (no IgnoreCase); Lean buildItems→addLowercase(lcTable from the source, ToLower rows)→Copy→addCaseEquivalences vs the IgnoreCase parse (classes whose ranges cover at most 3000 runes)",
 			Corpus: corpus, N: c.N(1500, 30000), Gen: c16Gen(c), Check: c16Check, Batch: 250,
 		})
 	})
